@@ -129,6 +129,15 @@ class Driver:
         except Exception:
             self.p.kill()
 
+    def restart(self):
+        """after an interrupted exchange the stream is out of step: start over"""
+        try:
+            self.p.kill()
+            self.p.wait(timeout=5)
+        except Exception:       # noqa
+            pass
+        self.__init__()
+
 
 def diff(a, b, path=''):
     """First structural difference between two JSON values (bool ≠ int), or None."""
